@@ -151,6 +151,37 @@ static size_t prefix_digit_len(size_t len)
 	return ndigit;
 }
 
+/*
+  A PAX keyword ends at the first '='. Like GNU tar, write a '=' inside an
+  xattr key as "%3D" and a '%' as "%25"; the reader undoes it.
+*/
+static size_t xattr_key_len(const char *key)
+{
+	size_t len = 0;
+
+	for (; *key != '\0'; ++key)
+		len += (*key == '%' || *key == '=') ? 3 : 1;
+
+	return len;
+}
+
+static char *xattr_key_encode(char *dst, const char *key)
+{
+	for (; *key != '\0'; ++key) {
+		if (*key == '%') {
+			memcpy(dst, "%25", 3);
+			dst += 3;
+		} else if (*key == '=') {
+			memcpy(dst, "%3D", 3);
+			dst += 3;
+		} else {
+			*(dst++) = *key;
+		}
+	}
+
+	return dst;
+}
+
 static int write_schily_xattr(sqfs_ostream_t *fp, const sqfs_dir_entry_t *orig,
 			      const char *name, const sqfs_xattr_t *xattr)
 {
@@ -160,7 +191,8 @@ static int write_schily_xattr(sqfs_ostream_t *fp, const sqfs_dir_entry_t *orig,
 	int ret;
 
 	for (const sqfs_xattr_t *it = xattr; it != NULL; it = it->next) {
-		len = strlen(prefix) + strlen(it->key) + it->value_len + 3;
+		len = strlen(prefix) + xattr_key_len(it->key) +
+			it->value_len + 3;
 
 		total_size += len + prefix_digit_len(len);
 	}
@@ -172,11 +204,14 @@ static int write_schily_xattr(sqfs_ostream_t *fp, const sqfs_dir_entry_t *orig,
 	ptr = buffer;
 
 	for (const sqfs_xattr_t *it = xattr; it != NULL; it = it->next) {
-		len = strlen(prefix) + strlen(it->key) + it->value_len + 3;
+		len = strlen(prefix) + xattr_key_len(it->key) +
+			it->value_len + 3;
 		len += prefix_digit_len(len);
 
-		sprintf(ptr, PRI_SZ " %s%s=", len, prefix, it->key);
+		sprintf(ptr, PRI_SZ " %s", len, prefix);
 		ptr += strlen(ptr);
+		ptr = xattr_key_encode(ptr, it->key);
+		*(ptr++) = '=';
 		memcpy(ptr, it->value, it->value_len);
 		ptr += it->value_len;
 		*(ptr++) = '\n';
